@@ -507,3 +507,283 @@ Example C12_dist_relax_nonvacuous :
   map (map qval) (dist_cheby_sweep cdMs 2 D (chunks parts f) (chunks parts x) (chunks parts z) (chunks parts z))
   = map (map qval) (chunks parts (cheby_sweep (cheby_setup true A (gershgorin true A) (qc 1 4) (qc 1 1) z) 2 A f x z z)).
 Proof. vm_compute. repeat split; reflexivity. Qed.
+
+(* ------------------------------------------------------------------------------------------------------------------------ *)
+(* C12-E: the distributed smoothed aggregation at NON-COMMUTATIVE value types (static_matrix blocks under MPI), the strength
+   pattern of the ranks, and R = P^T on the assembled operators (DistSaNc.v, DistSaNcConn.v, DistSaR.v).
+
+   The theorems C12_dist_sa_* above assume a field (commutative).  amgcl instantiates mpi::coarsening::smoothed_aggregation
+   with static_matrix<T,b,b> values, whose product does not commute: there the ORDER of the operands in
+   smoothed_aggregation.hpp:164-178 (dia_f = -omega * inverse(dia_f);  dia_f * A.val[j]) and in mpi::product (entry of the
+   filtered matrix on the LEFT of the entry of P_tent) is part of the meaning of  P = (I - omega Df^-1 A_f) P_tent.
+   [sa_formula omega A st Pt i j] = sum_k (delta_ik - (omega * sinv D_i) * (A_f)_ik) * (P_tent)_kj keeps exactly that order. *)
+From Amgcl Require Import NcRing BlockInst NcRingBlock DistSaNcConn DistSaNc.
+
+(* the strength pattern: every rank evaluates pmis::conn_strength with its own diagonal slice and the ghost diagonal values it
+   received; row by row this is the strength pattern of the ASSEMBLED matrix (Pmis.conn: what the PMIS model aggregates and
+   what the filtered matrix of the serial specification uses), with the columns owned by the rank of the row listed first
+   (S_loc, then S_rem) -- for every rank count and contiguous partition, empty ranks included; no algebraic law is needed *)
+Theorem C12_dist_strength_pattern_is_global (S : Scalar) (A : crs S) (parts : list nat) :
+  psum parts = nrows A -> ncols A = nrows A -> wf A = true ->
+  forall junk eps2 : S,
+  dist_conn junk eps2 (Dist.split A parts parts) = conn_reordered parts (conn junk A eps2) /\
+  length (dist_conn junk eps2 (Dist.split A parts parts)) = nrows A /\
+  forall i, i < nrows A ->
+    let r := owner parts i in
+    nth i (dist_conn junk eps2 (Dist.split A parts parts)) []
+      = reorder_cols (pbeg parts r) (psize parts r) (nth i (conn junk A eps2) []) /\
+    Permutation.Permutation (nth i (dist_conn junk eps2 (Dist.split A parts parts)) []) (nth i (conn junk A eps2) []) /\
+    (forall c, In c (nth i (dist_conn junk eps2 (Dist.split A parts parts)) []) <-> In c (nth i (conn junk A eps2) [])).
+Proof.
+  intros H1 H2 H3 junk eps2.
+  exact (conj (dist_conn_global A parts H1 H2 H3 junk eps2) (dist_conn_rows A parts H1 H2 H3 junk eps2)).
+Qed.
+Print Assumptions C12_dist_strength_pattern_is_global.
+
+(* ... and the literal list equality dist_conn = Pmis.conn is FALSE of the model already for sorted rows (2 x 2, ranks [1;1]:
+   rank 1 lists its own column 1 before the remote column 0): the statement above is the strongest true one *)
+Theorem C12_dist_strength_pattern_literal_equality_refuted :
+  exists (A : crs QcS) (parts : list nat) (junk eps2 : QcS),
+    psum parts = nrows A /\ ncols A = nrows A /\ wf A = true /\
+    dist_conn junk eps2 (Dist.split A parts parts) <> conn junk A eps2.
+Proof.
+  exists connw_A, [1; 1], (qc 0 1), (qc 1 16).
+  destruct dist_conn_storage_order_differs as [H1 [H2 [H3 [H4 H5]]]].
+  split; [exact H1|]. split; [exact H2|]. split; [exact H3|]. rewrite H4, H5. discriminate.
+Qed.
+Print Assumptions C12_dist_strength_pattern_literal_equality_refuted.
+
+(* non-vacuity: path 0-1-2-3 on the ranks [2; 0; 2] (an empty rank): hypotheses hold; the ranks' pattern and the global one *)
+Example C12_dist_strength_pattern_nonvacuous :
+  let parts := [2; 0; 2] in let eps2 := qc 1 16 in let junk := qc 0 1 in
+  psum parts = nrows sa_ex_A /\ ncols sa_ex_A = nrows sa_ex_A /\ wf sa_ex_A = true /\
+  conn junk sa_ex_A eps2 = [[0; 1]; [0; 1; 2]; [1; 2; 3]; [2; 3]] /\
+  dist_conn junk eps2 (Dist.split sa_ex_A parts parts) = [[0; 1]; [0; 1; 2]; [2; 3; 1]; [2; 3]].
+Proof. vm_compute. repeat split; reflexivity. Qed.
+
+Section NcSa.
+Variable S : Scalar.
+Hypothesis Hnc : ncring_theory S.
+
+(* the distributed filtered matrix is the split of the filtered matrix of the assembled matrix without commutativity *)
+Theorem C12_nc_dist_sa_filtered_every_partition (A : crs S) (parts : list nat) :
+  psum parts = nrows A -> ncols A = nrows A -> wf A = true ->
+  forall junk eps2 omega : S,
+  dist_sa_filtered junk eps2 omega (Dist.split A parts parts)
+  = Dist.split (sa_glob_filtered omega A (strong_entry junk A eps2)) parts parts.
+Proof. exact (nc_dist_sa_filtered_split Hnc A parts). Qed.
+
+(* assembling the ranks' P gives (I - omega Df^-1 A_f) P_tent with the products in the order of the code, for every partition
+   of the rows and every column partition of P_tent, on every row with one stored diagonal entry whose filtered diagonal D_i
+   has the LEFT inverse sinv D_i (the only inverse law used; over a field: D_i <> 0) *)
+Theorem C12_nc_dist_sa_smooth_every_partition (junk eps2 omega : S) (A Pt : crs S) (parts cparts : list nat) :
+  psum parts = nrows A -> ncols A = nrows A -> wf A = true ->
+  length parts = length cparts -> psum parts = nrows Pt ->
+  forall i j, i < nrows A ->
+    diag_count i (nth i (rows A) []) = 1 ->
+    (sinv (sa_D A (conn_flags S junk A eps2) i) * sa_D A (conn_flags S junk A eps2) i)%S = s1 ->
+    mget (assemble (dist_sa_smooth junk eps2 omega (Dist.split A parts parts) (Dist.split Pt parts cparts))) i j
+    = sa_formula omega A (conn_flags S junk A eps2) Pt i j.
+Proof. exact (nc_dist_sa_smooth_every_partition S Hnc junk eps2 omega A Pt parts cparts). Qed.
+
+(* one call of transfer_operators with the PMIS model for P_tent *)
+Theorem C12_nc_dist_sa_transfer_every_partition (junk eps2 omega : S) (A : crs S) (parts : list nat) :
+  psum parts = nrows A -> ncols A = nrows A -> wf A = true ->
+  (forall i, i < psum parts -> In i (Pmis.grow (conn junk A eps2) i)) ->
+  exists w Pt P R,
+    pmis parts (conn junk A eps2) = Some w /\
+    dist_sa_transfer junk eps2 omega A parts = Some (Pt, P, R) /\
+    let PtG := ptent_of S (map (column w) (seq 0 (psum parts))) (psum (w_na w)) in
+    Pt = Dist.split PtG parts (w_na w) /\
+    R = dist_transpose P parts /\
+    forall i j, i < nrows A ->
+      diag_count i (nth i (rows A) []) = 1 ->
+      (sinv (sa_D A (conn_flags S junk A eps2) i) * sa_D A (conn_flags S junk A eps2) i)%S = s1 ->
+      mget (assemble P) i j = sa_formula omega A (conn_flags S junk A eps2) PtG i j.
+Proof. exact (nc_dist_sa_transfer_every_partition S Hnc junk eps2 omega A parts). Qed.
+End NcSa.
+Print Assumptions C12_nc_dist_sa_filtered_every_partition.
+Print Assumptions C12_nc_dist_sa_smooth_every_partition.
+Print Assumptions C12_nc_dist_sa_transfer_every_partition.
+
+(* closed at static_matrix<Q,b,b> for EVERY block size b; the left-inverse law is discharged by "math::inverse passes its
+   assertion on D_i and on its result" (NcRingBlockInv.BlockS_inv_two_sided) *)
+Theorem C12_nc_dist_sa_smooth_every_partition_BlockQc (b : nat) (junk eps2 omega : BlockS QcS b)
+  (A Pt : crs (BlockS QcS b)) (parts cparts : list nat) :
+  psum parts = nrows A -> ncols A = nrows A -> wf A = true ->
+  length parts = length cparts -> psum parts = nrows Pt ->
+  forall i j, i < nrows A ->
+    diag_count i (nth i (rows A) []) = 1 ->
+    sinv (sa_D A (conn_flags _ junk A eps2) i) <> s0 ->
+    sinv (sinv (sa_D A (conn_flags _ junk A eps2) i)) <> s0 ->
+    mget (assemble (dist_sa_smooth junk eps2 omega (Dist.split A parts parts) (Dist.split Pt parts cparts))) i j
+    = sa_formula omega A (conn_flags _ junk A eps2) Pt i j.
+Proof. exact (nc_dist_sa_smooth_every_partition_BlockQc b junk eps2 omega A Pt parts cparts). Qed.
+Print Assumptions C12_nc_dist_sa_smooth_every_partition_BlockQc.
+
+(* converse witnesses = the class of the seeded regression C12-4 inside smoothed_aggregation.hpp: the model with
+   A.val[j] * dia_f instead of dia_f * A.val[j] (DistSaNc.dist_sa_smooth_sw swl swr: in the local loop 166-172, in the remote
+   loop 174-178, or in both).  At 2 x 2 blocks on the ranks [2; 0; 1] (rank 1 empty),
+        A = [ D a a ; . D . ; . . D ],  D = [2 1; 0 2],  a = [0 0; 1 1],  P_tent = I,  omega = 1/2,  eps_strong = 0,
+   every hypothesis of C12_nc_dist_sa_smooth_every_partition holds on row 0 and the assembled P of each swapped model differs
+   from the formula (entry (0,1) for the local loop, (0,2) for the remote loop) ... *)
+Theorem C12_nc_dist_sa_smooth_swapped_operands_refuted :
+  exists (A Pt : crs (BlockS QcS 2)) (parts cparts : list nat) (junk eps2 omega : BlockS QcS 2) (i : nat),
+    psum parts = nrows A /\ ncols A = nrows A /\ wf A = true /\
+    length parts = length cparts /\ psum parts = nrows Pt /\ i < nrows A /\
+    diag_count i (nth i (rows A) []) = 1 /\
+    (sinv (sa_D A (conn_flags _ junk A eps2) i) * sa_D A (conn_flags _ junk A eps2) i)%S = s1 /\
+    (exists j, mget (assemble (dist_sa_smooth_sw true false junk eps2 omega (Dist.split A parts parts) (Dist.split Pt parts cparts))) i j
+               <> sa_formula omega A (conn_flags _ junk A eps2) Pt i j) /\
+    (exists j, mget (assemble (dist_sa_smooth_sw false true junk eps2 omega (Dist.split A parts parts) (Dist.split Pt parts cparts))) i j
+               <> sa_formula omega A (conn_flags _ junk A eps2) Pt i j) /\
+    (exists j, mget (assemble (dist_sa_smooth_sw true true junk eps2 omega (Dist.split A parts parts) (Dist.split Pt parts cparts))) i j
+               <> sa_formula omega A (conn_flags _ junk A eps2) Pt i j).
+Proof.
+  exists sw_A, sw_Pt, sw_parts, sw_parts, sw_0, sw_0, sw_omega, 0.
+  destruct sw_hypotheses as [H1 [H2 [H3 [H4 [H5 [H6 [H7 H8]]]]]]].
+  repeat (split; [assumption|]).
+  split; [exists 1; exact swapped_local_operands_refuted|].
+  split; [exists 2; exact swapped_remote_operands_refuted|].
+  exists 1; exact swapped_both_operands_refuted.
+Qed.
+Print Assumptions C12_nc_dist_sa_smooth_swapped_operands_refuted.
+
+(* ... while in every COMMUTATIVE ring the swapped models are the same function: the regression is invisible to
+   C12_dist_sa_smooth_every_partition and to every scalar-valued run; only the non-commutative theorem excludes it *)
+Theorem C12_nc_dist_sa_smooth_swapped_operands_commutative_noop (S : Scalar) (Srt : Sring S) (swl swr : bool)
+  (junk eps2 omega : S) (D Pt : dmat S) :
+  dist_sa_smooth_sw swl swr junk eps2 omega D Pt = dist_sa_smooth junk eps2 omega D Pt.
+Proof. exact (dist_sa_smooth_sw_comm Srt swl swr junk eps2 omega D Pt). Qed.
+Print Assumptions C12_nc_dist_sa_smooth_swapped_operands_commutative_noop.
+
+(* non-vacuity of the non-commutative theorem: on the witness (ranks [2; 0; 1], an empty rank) the hypotheses hold and the
+   unswapped model gives the formula on row 0 (computed on both sides); entry (0,1) is the block (-1/2) D^-1 a *)
+Example C12_nc_dist_sa_nonvacuous :
+  psum sw_parts = nrows sw_A /\ ncols sw_A = nrows sw_A /\ wf sw_A = true /\
+  length sw_parts = length sw_parts /\ psum sw_parts = nrows sw_Pt /\ 0 < nrows sw_A /\
+  diag_count 0 (nth 0 (rows sw_A) []) = 1 /\
+  (sinv (sa_D sw_A (conn_flags _ sw_0 sw_A sw_0) 0) * sa_D sw_A (conn_flags _ sw_0 sw_A sw_0) 0)%S = s1 /\
+  forallb (fun j => seqb (mget (assemble (dist_sa_smooth sw_0 sw_0 sw_omega (Dist.split sw_A sw_parts sw_parts)
+                                                         (Dist.split sw_Pt sw_parts sw_parts))) 0 j)
+                         (sa_formula sw_omega sw_A (conn_flags _ sw_0 sw_A sw_0) sw_Pt 0 j)) [0; 1; 2] = true.
+Proof.
+  destruct sw_hypotheses as [H1 [H2 [H3 [H4 [H5 [H6 [H7 H8]]]]]]].
+  repeat (split; [assumption|]). exact (proj1 unswapped_agrees_on_witness).
+Qed.
+
+(* R = P^T on the ASSEMBLED operators.  In the model R = dist_transpose P by construction (C12_dist_sa_transfer_every_partition);
+   C11's transpose theorem speaks about matrices of the form split(..), and P = mpi::product(Af, P_tent) is not syntactically
+   one.  DistSaR.v: every dist_product of two splits IS the split of its own assembly (law-free), hence for every partition
+   (empty ranks included) assemble(R) is, row by row, a permutation of the serial transpose of assemble(P) -- the rank that
+   owns a coarse column lists its own block first -- and has the same dense entries. *)
+From Amgcl Require Import DistSaR DistSaRNc BlockMatOpsProofs.
+
+(* law-free core: the distributed product of two constructor splits is the constructor's split of its assembly *)
+Theorem C12_dist_product_is_split_of_its_assembly (S : Scalar) (A B : crs S) (rpA cpA cpB : list nat) :
+  length rpA = length cpA -> length cpA = length cpB -> psum rpA = nrows A ->
+  let P := dist_product (Dist.split A rpA cpA) (Dist.split B cpA cpB) in
+  Dist.split (assemble P) rpA cpB = P.
+Proof. exact (dist_product_is_split A B rpA cpA cpB). Qed.
+Print Assumptions C12_dist_product_is_split_of_its_assembly.
+
+Section NcSaR.
+Variable S : Scalar.
+Hypothesis Hnc : ncring_theory S.
+
+(* for every distributed P_tent (non-commutative ring laws only: the filtered matrix must be identified, and the dense
+   entries of a row do not depend on the storage order because ADDITION commutes) *)
+Theorem C12_dist_sa_restriction_is_transpose_of_assembled_P_any_ptent (junk eps2 omega : S) (A Pt : crs S)
+  (parts cparts : list nat) :
+  psum parts = nrows A -> ncols A = nrows A -> wf A = true -> length parts = length cparts ->
+  let P := dist_sa_smooth junk eps2 omega (Dist.split A parts parts) (Dist.split Pt parts cparts) in
+  let R := dist_transpose P parts in
+  ncols (assemble R) = nrows A /\ nrows (assemble P) = nrows A /\ ncols (assemble P) = psum cparts /\
+  (forall j, j < psum cparts ->
+     Permutation.Permutation (nth j (rows (assemble R)) []) (nth j (rows (transpose (assemble P))) [])) /\
+  (forall i j, j < psum cparts -> mget (assemble R) j i = mget (transpose (assemble P)) j i).
+Proof. exact (nc_dist_sa_smooth_restriction Hnc junk eps2 omega A Pt parts cparts). Qed.
+
+(* for the P produced by the model (one call of transfer_operators with the PMIS model), every rank count and partition *)
+Theorem C12_dist_sa_restriction_is_transpose_of_assembled_P (junk eps2 omega : S) (A : crs S) (parts : list nat) :
+  psum parts = nrows A -> ncols A = nrows A -> wf A = true ->
+  (forall i, i < psum parts -> In i (Pmis.grow (conn junk A eps2) i)) ->
+  exists w Pt P R,
+    pmis parts (conn junk A eps2) = Some w /\ dist_sa_transfer junk eps2 omega A parts = Some (Pt, P, R) /\
+    ncols (assemble R) = nrows A /\ nrows (assemble P) = nrows A /\ ncols (assemble P) = psum (w_na w) /\
+    (forall j, j < psum (w_na w) ->
+       Permutation.Permutation (nth j (rows (assemble R)) []) (nth j (rows (transpose (assemble P))) [])) /\
+    (forall i j, j < psum (w_na w) -> mget (assemble R) j i = mget (transpose (assemble P)) j i).
+Proof. exact (nc_dist_sa_restriction_is_transpose Hnc junk eps2 omega A parts). Qed.
+
+(* entry by entry with an additive adjoint (blocks: conjugate transpose of every block): R_ji = adjoint(P_ij) *)
+Hypothesis sadj_add : forall a b : S, sadj (a + b)%S = (sadj a + sadj b)%S.
+Hypothesis sadj_0 : sadj (@s0 S) = s0.
+Theorem C12_dist_sa_restriction_adjoint_entries (junk eps2 omega : S) (A Pt : crs S) (parts cparts : list nat) :
+  psum parts = nrows A -> ncols A = nrows A -> wf A = true -> length parts = length cparts ->
+  let P := dist_sa_smooth junk eps2 omega (Dist.split A parts parts) (Dist.split Pt parts cparts) in
+  let R := dist_transpose P parts in
+  forall i j, j < psum cparts -> mget (assemble R) j i = sadj (mget (assemble P) i j).
+Proof. exact (nc_dist_sa_restriction_adjoint_entries Hnc sadj_add sadj_0 junk eps2 omega A Pt parts cparts). Qed.
+End NcSaR.
+Print Assumptions C12_dist_sa_restriction_is_transpose_of_assembled_P_any_ptent.
+Print Assumptions C12_dist_sa_restriction_is_transpose_of_assembled_P.
+Print Assumptions C12_dist_sa_restriction_adjoint_entries.
+
+(* closed instances: Qc (scalar values) and static_matrix<Q,b,b> for every block size *)
+Theorem C12_dist_sa_restriction_is_transpose_of_assembled_P_Qc (junk eps2 omega : QcS) (A : crs QcS) (parts : list nat) :
+  psum parts = nrows A -> ncols A = nrows A -> wf A = true ->
+  (forall i, i < psum parts -> In i (Pmis.grow (conn junk A eps2) i)) ->
+  exists w Pt P R,
+    pmis parts (conn junk A eps2) = Some w /\ dist_sa_transfer junk eps2 omega A parts = Some (Pt, P, R) /\
+    ncols (assemble R) = nrows A /\ nrows (assemble P) = nrows A /\ ncols (assemble P) = psum (w_na w) /\
+    (forall j, j < psum (w_na w) ->
+       Permutation.Permutation (nth j (rows (assemble R)) []) (nth j (rows (transpose (assemble P))) [])) /\
+    (forall i j, j < psum (w_na w) -> mget (assemble R) j i = mget (transpose (assemble P)) j i).
+Proof. exact (C12_dist_sa_restriction_is_transpose_of_assembled_P QcS (ncring_of_ring QcS QcS_ring) junk eps2 omega A parts). Qed.
+Print Assumptions C12_dist_sa_restriction_is_transpose_of_assembled_P_Qc.
+
+Theorem C12_dist_sa_restriction_adjoint_entries_BlockQc (b : nat) (junk eps2 omega : BlockS QcS b)
+  (A Pt : crs (BlockS QcS b)) (parts cparts : list nat) :
+  psum parts = nrows A -> ncols A = nrows A -> wf A = true -> length parts = length cparts ->
+  let P := dist_sa_smooth junk eps2 omega (Dist.split A parts parts) (Dist.split Pt parts cparts) in
+  let R := dist_transpose P parts in
+  forall i j, j < psum cparts -> mget (assemble R) j i = sadj (mget (assemble P) i j).
+Proof.
+  exact (C12_dist_sa_restriction_adjoint_entries (BlockS QcS b) (BlockS_ncring QcS b QcS_ring)
+           (BlockS_adj_add QcS b (fun _ _ => eq_refl)) (BlockS_adj_0 QcS b QcS_ring (fun _ _ => eq_refl))
+           junk eps2 omega A Pt parts cparts).
+Qed.
+Print Assumptions C12_dist_sa_restriction_adjoint_entries_BlockQc.
+
+(* the literal equality  assemble (dist_transpose P) = transpose (assemble P)  is FALSE of the model: storage order.  Path
+   0-1-2-3 on the ranks [2; 0; 2] (an empty rank; the hypotheses of the theorem hold): one aggregate, owned by rank 2, so row 0
+   of R lists the columns 2,3 (own block) before 0,1 -- a permutation of the serial transpose, not the same list *)
+Theorem C12_dist_sa_restriction_literal_equality_refuted :
+  exists (A : crs QcS) (parts : list nat) (junk eps2 omega : QcS) Pt P R,
+    psum parts = nrows A /\ ncols A = nrows A /\ wf A = true /\
+    dist_sa_transfer junk eps2 omega A parts = Some (Pt, P, R) /\
+    (forall j, j < nrows (assemble R) ->
+       Permutation.Permutation (nth j (rows (assemble R)) []) (nth j (rows (transpose (assemble P))) [])) /\
+    rows (assemble R) <> rows (transpose (assemble P)).
+Proof.
+  destruct dist_sa_restriction_storage_order_differs as [Pt [P [R [H1 [H2 [H3 [_ [_ H6]]]]]]]].
+  exists sar_ex_A, [2; 0; 2], (qc 0 1), (qc 1 16), (qc 1 2), Pt, P, R.
+  split; [reflexivity|]. split; [reflexivity|]. split; [reflexivity|]. split; [exact H1|].
+  split; [rewrite H2; exact H3 | exact H6].
+Qed.
+Print Assumptions C12_dist_sa_restriction_literal_equality_refuted.
+
+(* non-vacuity (an empty rank): on that world the hypotheses of C12_dist_sa_restriction_is_transpose_of_assembled_P hold and
+   R, P^T have the stated shapes and orders *)
+Example C12_dist_sa_restriction_nonvacuous :
+  let parts := [2; 0; 2] in let eps2 := qc 1 16 in let omega := qc 1 2 in let junk := qc 0 1 in
+  psum parts = nrows sar_ex_A /\ ncols sar_ex_A = nrows sar_ex_A /\ wf sar_ex_A = true /\
+  forallb (fun i => memb i (Pmis.grow (conn junk sar_ex_A eps2) i)) (seq 0 4) = true /\
+  match dist_sa_transfer junk eps2 omega sar_ex_A parts with
+  | Some (_, P, R) => map (map fst) (rows (assemble R)) = [[2; 3; 0; 1]] /\
+                      map (map fst) (rows (transpose (assemble P))) = [[0; 1; 2; 3]] /\
+                      map (fun i => qval (mget (assemble R) 0 i)) (seq 0 4) = map (fun i => qval (mget (assemble P) i 0)) (seq 0 4)
+  | None => False
+  end.
+Proof. vm_compute. repeat split; reflexivity. Qed.
